@@ -87,6 +87,7 @@ package pfcp
 //@ func (s *Sess) CreateFAR(req *ie.IE) (err error)
 //@   requires sessOK(s) && req != nil
 //@   ensures [ok]    sessOK(s)
+//@   ensures [frameok]  forall t *Sess :: old(allocated(t)) && old(sessOK(t)) && old(sep2(t, s)) ==> sessOK(t)
 //@   ensures [rec]   ok(req.FARID()) ==> val(req.FARID()) in s.FARIDs
 //@   ensures [mono]  forall id uint32 :: id in old(s.FARIDs) ==> id in s.FARIDs
 //@   ensures [isol]  forall k RuleKey :: k.seid != s.LocalID ==> ((k in DP) == (k in old(DP)))
@@ -101,6 +102,7 @@ package pfcp
 
 //@ func (s *Sess) UpdateFAR(req *ie.IE) (err error)
 //@   requires sessOK(s) && req != nil
+//@   ensures [ok]    sessOK(s)
 //@   modifies nothing
 //@   reveal sessOK
 //@   serves C01 C05 C07
@@ -110,6 +112,7 @@ package pfcp
 //@ func (s *Sess) RemoveFAR(req *ie.IE) (err error)
 //@   requires sessOK(s) && req != nil
 //@   ensures [ok]    sessOK(s)
+//@   ensures [frameok]  forall t *Sess :: old(allocated(t)) && old(sessOK(t)) && old(sep2(t, s)) ==> sessOK(t)
 //@   ensures [gone]  ok(req.FARID()) && val(req.FARID()) in old(s.FARIDs) ==> !(RuleKey(s.LocalID, 2, uint64(val(req.FARID()))) in DP)
 //@   ensures [sub]   forall k RuleKey :: k in DP ==> k in old(DP)
 //@   ensures [isol]  forall k RuleKey :: k.seid != s.LocalID ==> ((k in DP) == (k in old(DP)))
@@ -125,6 +128,7 @@ package pfcp
 //@ func (s *Sess) CreateQER(req *ie.IE) (err error)
 //@   requires sessOK(s) && req != nil
 //@   ensures [ok]    sessOK(s)
+//@   ensures [frameok]  forall t *Sess :: old(allocated(t)) && old(sessOK(t)) && old(sep2(t, s)) ==> sessOK(t)
 //@   ensures [rec]   ok(req.QERID()) ==> val(req.QERID()) in s.QERIDs
 //@   ensures [mono]  forall id uint32 :: id in old(s.QERIDs) ==> id in s.QERIDs
 //@   ensures [isol]  forall k RuleKey :: k.seid != s.LocalID ==> ((k in DP) == (k in old(DP)))
@@ -139,6 +143,7 @@ package pfcp
 
 //@ func (s *Sess) UpdateQER(req *ie.IE) (err error)
 //@   requires sessOK(s) && req != nil
+//@   ensures [ok]    sessOK(s)
 //@   modifies nothing
 //@   reveal sessOK
 //@   serves C01 C05 C07
@@ -148,6 +153,7 @@ package pfcp
 //@ func (s *Sess) RemoveQER(req *ie.IE) (err error)
 //@   requires sessOK(s) && req != nil
 //@   ensures [ok]    sessOK(s)
+//@   ensures [frameok]  forall t *Sess :: old(allocated(t)) && old(sessOK(t)) && old(sep2(t, s)) ==> sessOK(t)
 //@   ensures [gone]  ok(req.QERID()) && val(req.QERID()) in old(s.QERIDs) ==> !(RuleKey(s.LocalID, 3, uint64(val(req.QERID()))) in DP)
 //@   ensures [sub]   forall k RuleKey :: k in DP ==> k in old(DP)
 //@   ensures [isol]  forall k RuleKey :: k.seid != s.LocalID ==> ((k in DP) == (k in old(DP)))
@@ -163,6 +169,7 @@ package pfcp
 //@ func (s *Sess) CreateBAR(req *ie.IE) (err error)
 //@   requires sessOK(s) && req != nil
 //@   ensures [ok]    sessOK(s)
+//@   ensures [frameok]  forall t *Sess :: old(allocated(t)) && old(sessOK(t)) && old(sep2(t, s)) ==> sessOK(t)
 //@   ensures [rec]   ok(req.BARID()) ==> val(req.BARID()) in s.BARIDs
 //@   ensures [mono]  forall id uint8 :: id in old(s.BARIDs) ==> id in s.BARIDs
 //@   ensures [isol]  forall k RuleKey :: k.seid != s.LocalID ==> ((k in DP) == (k in old(DP)))
@@ -177,6 +184,7 @@ package pfcp
 
 //@ func (s *Sess) UpdateBAR(req *ie.IE) (err error)
 //@   requires sessOK(s) && req != nil
+//@   ensures [ok]    sessOK(s)
 //@   modifies nothing
 //@   reveal sessOK
 //@   serves C01 C05 C07
@@ -186,6 +194,7 @@ package pfcp
 //@ func (s *Sess) RemoveBAR(req *ie.IE) (err error)
 //@   requires sessOK(s) && req != nil
 //@   ensures [ok]    sessOK(s)
+//@   ensures [frameok]  forall t *Sess :: old(allocated(t)) && old(sessOK(t)) && old(sep2(t, s)) ==> sessOK(t)
 //@   ensures [gone]  ok(req.BARID()) && val(req.BARID()) in old(s.BARIDs) ==> !(RuleKey(s.LocalID, 5, uint64(val(req.BARID()))) in DP)
 //@   ensures [sub]   forall k RuleKey :: k in DP ==> k in old(DP)
 //@   ensures [isol]  forall k RuleKey :: k.seid != s.LocalID ==> ((k in DP) == (k in old(DP)))
@@ -207,6 +216,7 @@ package pfcp
 //@ func (s *Sess) CreateURR(req *ie.IE) (err error)
 //@   requires sessOK(s) && ieWF(req)
 //@   ensures [ok]    sessOK(s)
+//@   ensures [frameok]  forall t *Sess :: old(allocated(t)) && old(sessOK(t)) && old(sep2(t, s)) ==> sessOK(t)
 //@   ensures [rec]   ok(req.URRID()) ==> val(req.URRID()) in s.URRIDs
 //@   ensures [mono]  forall id uint32 :: id in old(s.URRIDs) ==> id in s.URRIDs
 //@   ensures [isol]  forall k RuleKey :: k.seid != s.LocalID ==> ((k in DP) == (k in old(DP)))
@@ -230,6 +240,7 @@ package pfcp
 //@   requires sessOK(s) && ieWF(req)
 //@   ensures [seqn]  forall u uint32 :: u in s.URRIDs ==> s.URRIDs[u].SEQN == old(s.URRIDs[u].SEQN) && s.URRIDs[u].refPdrNum == old(s.URRIDs[u].refPdrNum)
 //@   ensures [ok]    sessOK(s)
+//@   ensures [frameok]  forall t *Sess :: old(allocated(t)) && old(sessOK(t)) && old(sep2(t, s)) ==> sessOK(t)
 //@   modifies s.URRIDs[_].DURAT, s.URRIDs[_].VOLUM, s.URRIDs[_].EVENT, s.URRIDs[_].MBQE, s.URRIDs[_].INAM, s.URRIDs[_].RADI, s.URRIDs[_].ISTM, s.URRIDs[_].MNOP
 //@   reveal sessOK
 //@   serves C01 C05 C07
@@ -242,6 +253,7 @@ package pfcp
 //@ func (s *Sess) RemoveURR(req *ie.IE) (usars []report.USAReport, err error)
 //@   requires sessOK(s) && req != nil
 //@   ensures [ok]    sessOK(s)
+//@   ensures [frameok]  forall t *Sess :: old(allocated(t)) && old(sessOK(t)) && old(sep2(t, s)) ==> sessOK(t)
 //@   ensures [gone]  ok(req.URRID()) && val(req.URRID()) in s.URRIDs ==> !(RuleKey(s.LocalID, 4, uint64(val(req.URRID()))) in DP)
 //@   ensures [sub]   forall k RuleKey :: k in DP ==> k in old(DP)
 //@   ensures [isol]  forall k RuleKey :: k.seid != s.LocalID ==> ((k in DP) == (k in old(DP)))
@@ -264,6 +276,7 @@ package pfcp
 //@   ensures [errnil] err != nil ==> usars == nil
 //@   ensures [freshres] usars == nil || fresh(usars)
 //@   ensures [ok]    sessOK(s)
+//@   ensures [frameok]  forall t *Sess :: old(allocated(t)) && old(sessOK(t)) && old(sep2(t, s)) ==> sessOK(t)
 //@   modifies nothing
 //@   reveal sessOK
 //@   serves C01 C05 C07 C12
@@ -282,6 +295,7 @@ package pfcp
 //@   ensures [termr]   forall j int :: 0 <= j && j < len(usars) ==> usars[j].USARTrigger.Flags & report.USAR_TRIG_TERMR != 0
 //@   ensures [freshres] usars == nil || fresh(usars)
 //@   ensures [ok]    sessOK(s)
+//@   ensures [frameok]  forall t *Sess :: old(allocated(t)) && old(sessOK(t)) && old(sep2(t, s)) ==> sessOK(t)
 //@   modifies s.URRIDs[urrid].refPdrNum
 //@   reveal sessOK
 //@   serves C01 C05 C07 C12
@@ -297,6 +311,7 @@ package pfcp
 //@   ensures [known]   urrid in s.URRIDs ==> seq == old(s.URRIDs[urrid].SEQN) && s.URRIDs[urrid].SEQN == seq + 1
 //@   ensures [unknown] !(urrid in s.URRIDs) ==> seq == 0
 //@   ensures [ok]    sessOK(s)
+//@   ensures [frameok]  forall t *Sess :: old(allocated(t)) && old(sessOK(t)) && old(sep2(t, s)) ==> sessOK(t)
 //@   modifies s.URRIDs[urrid].SEQN
 //@   reveal sessOK
 //@   serves C11 C05 C07
@@ -306,6 +321,7 @@ package pfcp
 //@ func (s *Sess) CreatePDR(req *ie.IE) (err error)
 //@   requires sessOK(s) && req != nil
 //@   ensures [ok]    sessOK(s)
+//@   ensures [frameok]  forall t *Sess :: old(allocated(t)) && old(sessOK(t)) && old(sep2(t, s)) ==> sessOK(t)
 //@   ensures [isol]  forall k RuleKey :: k.seid != s.LocalID ==> ((k in DP) == (k in old(DP)))
 //@   ensures [sup]   forall k RuleKey :: k in old(DP) ==> k in DP
 //@   ensures [mono]  forall id uint16 :: id in old(s.PDRIDs) ==> id in s.PDRIDs
@@ -324,6 +340,7 @@ package pfcp
 //@ func (s *Sess) UpdatePDR(req *ie.IE) (usars []report.USAReport, err error)
 //@   requires sessOK(s) && req != nil
 //@   ensures [ok]    sessOK(s)
+//@   ensures [frameok]  forall t *Sess :: old(allocated(t)) && old(sessOK(t)) && old(sep2(t, s)) ==> sessOK(t)
 //@   ensures [dp]    DP == old(DP)
 //@   ensures [termr] forall j int :: 0 <= j && j < len(usars) ==> usars[j].USARTrigger.Flags & report.USAR_TRIG_TERMR != 0
 //@   modifies s.PDRIDs[_].RelatedURRIDs, s.URRIDs[_].refPdrNum
@@ -342,6 +359,7 @@ package pfcp
 //@ func (s *Sess) RemovePDR(req *ie.IE) (usars []report.USAReport, err error)
 //@   requires sessOK(s) && req != nil
 //@   ensures [ok]    sessOK(s)
+//@   ensures [frameok]  forall t *Sess :: old(allocated(t)) && old(sessOK(t)) && old(sep2(t, s)) ==> sessOK(t)
 //@   ensures [gone]  ok(req.PDRID()) && val(req.PDRID()) in old(s.PDRIDs) ==> !(RuleKey(s.LocalID, 1, uint64(val(req.PDRID()))) in DP)
 //@   ensures [sub]   forall k RuleKey :: k in DP ==> k in old(DP)
 //@   ensures [isol]  forall k RuleKey :: k.seid != s.LocalID ==> ((k in DP) == (k in old(DP)))
@@ -367,6 +385,7 @@ package pfcp
 //@   ensures [others]    forall k RuleKey :: k.seid != s.LocalID ==> ((k in DP) == (k in old(DP)))
 //@   ensures [termr]     forall j int :: 0 <= j && j < len(usars) ==> usars[j].USARTrigger.Flags & report.USAR_TRIG_TERMR != 0
 //@   ensures [queues]    forall p uint16 :: p in s.q ==> closed(s.q[p])
+//@   ensures [frameok]      forall t *Sess :: old(allocated(t)) && old(sessOK(t)) && old(sep2(t, s)) ==> sessOK(t)
 //@   modifies s.FARIDs[_], s.QERIDs[_], s.BARIDs[_], s.PDRIDs[_], s.URRIDs[_].removed, s.URRIDs[_].refPdrNum, DP, chans(s.q)
 //@   reveal sessOK
 //@   serves C01 C05 C07 C12 C13
@@ -409,6 +428,8 @@ package pfcp
 //@ func (s *Sess) Push(pdrid uint16, p []byte)
 //@   requires sessOK(s)
 //@   ensures [ok]    sessOK(s)
+//@   ensures [frameok]  forall t *Sess :: old(allocated(t)) && old(sessOK(t)) && old(sep2(t, s)) ==> sessOK(t)
+//@   ensures [keepsep] forall t *Sess :: old(sessOK(t)) && old(sep2(t, s)) && old(allocated(t)) ==> sep2(t, s)
 //@   ensures [keys]  forall q uint16 :: q in s.q <==> (q in old(s.q) || q == pdrid)
 //@   ensures [same]  forall q uint16 :: q in old(s.q) ==> s.q[q] == old(s.q[q])
 //@   ensures [new]   !old(pdrid in s.q) ==> fresh(s.q[pdrid]) && cap(s.q[pdrid]) == s.qlen
@@ -435,6 +456,7 @@ package pfcp
 //@ func (s *Sess) Pop(pdrid uint16) (pkt []byte, ok bool)
 //@   requires sessOK(s)
 //@   ensures [ok]     sessOK(s)
+//@   ensures [frameok]  forall t *Sess :: old(allocated(t)) && old(sessOK(t)) && old(sep2(t, s)) ==> sessOK(t)
 //@   ensures [absent] !(pdrid in s.q) ==> !ok && pkt == nil
 //@   ensures [headel] pdrid in s.q && old(len(s.q[pdrid])) != 0 ==> ok && pkt == old(chat(s.q[pdrid], chhead(s.q[pdrid]))) &&
 //@                      chhead(s.q[pdrid]) == old(chhead(s.q[pdrid])) + 1 && chtail(s.q[pdrid]) == old(chtail(s.q[pdrid]))
@@ -459,11 +481,15 @@ package pfcp
 //@   ensures [nf]     !old(live(n, lSeid)) ==> err != nil && usars == nil && DP == old(DP) && CREATED == old(CREATED)
 //@   ensures [del]    old(live(n, lSeid)) ==> err == nil
 //@   ensures [gone]   !live(n, lSeid)
+//@   ensures [sub]    forall k RuleKey :: (k in DP ==> k in old(DP)) && (k in CREATED ==> k in old(CREATED))
+//@   ensures [slots]  len(n.sess) == old(len(n.sess)) &&
+//@                    (forall i int :: 0 <= i && i < len(n.sess) ==> (uint64(i) + 1 != lSeid ==> n.sess[i] == old(n.sess[i])) && (uint64(i) + 1 == lSeid ==> n.sess[i] == nil))
 //@   ensures [others] forall id uint64 :: id != lSeid ==> (live(n, id) == old(live(n, id))) && (old(live(n, id)) ==> n.sess[id-1] == old(n.sess[id-1]))
 //@   ensures [clean]  old(live(n, lSeid)) ==> (forall k RuleKey :: k.seid == lSeid ==> !(k in DP) && !(k in CREATED))
 //@   ensures [isol]   forall k RuleKey :: k.seid != lSeid ==> ((k in DP) == (k in old(DP))) && ((k in CREATED) == (k in old(CREATED)))
 //@   ensures [termr]  forall j int :: 0 <= j && j < len(usars) ==> usars[j].USARTrigger.Flags & report.USAR_TRIG_TERMR != 0
 //@   ensures [wf]     lnodeWF(n)
+//@   ensures [frameok]   forall t *Sess :: old(allocated(t)) && old(sessOK(t)) && old(live(n, lSeid) ==> sep2(t, n.sess[lSeid-1])) ==> sessOK(t)
 //@   modifies n.free, n.sess[_], DP, CREATED,
 //@            n.sess[lSeid-1].FARIDs[_], n.sess[lSeid-1].QERIDs[_], n.sess[lSeid-1].BARIDs[_], n.sess[lSeid-1].PDRIDs[_],
 //@            n.sess[lSeid-1].URRIDs[_].removed, n.sess[lSeid-1].URRIDs[_].refPdrNum, chans(n.sess[lSeid-1].q)
@@ -492,6 +518,7 @@ package pfcp
 //@   ensures [mine]   forall id uint64 :: id in n.sess <==> (id in old(n.sess) || id == s.LocalID)
 //@   ensures [others] forall id uint64 :: id != s.LocalID ==> (live(n.local, id) == old(live(n.local, id))) && (old(live(n.local, id)) ==> n.local.sess[id-1] == old(n.local.sess[id-1]))
 //@   ensures [ok]     sessOK(s)
+//@   ensures [frameok] forall t *Sess :: old(allocated(t)) && old(sessOK(t)) && t.LocalID != s.LocalID ==> sessOK(t) && sep2(t, s)
 //@   ensures [wf]     lnodeWF(n.local) && dpLive(n.local)
 //@   modifies n.sess[_], n.local.sess, n.local.free, n.local.sess[_]
 //@   reveal sessOK
@@ -506,35 +533,45 @@ package pfcp
 //@   ensures [others]  forall id uint64 :: id != lSeid ==> (live(n.local, id) == old(live(n.local, id))) && (old(live(n.local, id)) ==> n.local.sess[id-1] == old(n.local.sess[id-1]))
 //@   ensures [isol]    forall k RuleKey :: k.seid != lSeid ==> ((k in DP) == (k in old(DP))) && ((k in CREATED) == (k in old(CREATED)))
 //@   ensures [termr]   forall j int :: 0 <= j && j < len(usars) ==> usars[j].USARTrigger.Flags & report.USAR_TRIG_TERMR != 0
+//@   ensures [sub]     forall k RuleKey :: (k in DP ==> k in old(DP)) && (k in CREATED ==> k in old(CREATED))
+//@   ensures [slots]   n.local == old(n.local) && len(n.local.sess) == old(len(n.local.sess)) &&
+//@                     (forall i int :: 0 <= i && i < len(n.local.sess) ==> (uint64(i) + 1 != lSeid ==> n.local.sess[i] == old(n.local.sess[i])) &&
+//@                        (uint64(i) + 1 == lSeid && old(lSeid in n.sess) ==> n.local.sess[i] == nil) &&
+//@                        (!old(lSeid in n.sess) ==> n.local.sess[i] == old(n.local.sess[i])))
 //@   ensures [wf]      lnodeWF(n.local)
+//@   ensures [frameok]    forall t *Sess :: old(allocated(t)) && old(sessOK(t)) && old(live(n.local, lSeid) ==> sep2(t, n.local.sess[lSeid-1])) ==> sessOK(t)
 //@   modifies n.sess[_], n.local.free, n.local.sess[_], DP, CREATED,
 //@            n.local.sess[lSeid-1].FARIDs[_], n.local.sess[lSeid-1].QERIDs[_], n.local.sess[lSeid-1].BARIDs[_], n.local.sess[lSeid-1].PDRIDs[_],
 //@            n.local.sess[lSeid-1].URRIDs[_].removed, n.local.sess[lSeid-1].URRIDs[_].refPdrNum, chans(n.local.sess[lSeid-1].q)
 //@   serves C01 C04 C05 C07 C12
 
 // Separation between sessions (C05): distinct live sessions own distinct maps and queues.
-//@ pred sep2(a *Sess, b *Sess) = a.FARIDs != b.FARIDs && a.FARIDs != b.QERIDs && a.QERIDs != b.FARIDs && a.QERIDs != b.QERIDs &&
+//@ pred sep2(a *Sess, b *Sess) = a != b && a.LocalID != b.LocalID &&
+//@      a.FARIDs != b.FARIDs && a.FARIDs != b.QERIDs && a.QERIDs != b.FARIDs && a.QERIDs != b.QERIDs &&
 //@      a.BARIDs != b.BARIDs && a.PDRIDs != b.PDRIDs && a.URRIDs != b.URRIDs && a.q != b.q &&
 //@      (forall p1 uint16; p2 uint16 :: p1 in a.q && p2 in b.q ==> a.q[p1] != b.q[p2])
+
+// allSessOK(n): every live session is well-formed (opaque sessOK), allocated, and separated from every other one.
 //@ pred allSessOK(n *LocalNode) =
-//@      (forall i int :: 0 <= i && i < len(n.sess) && n.sess[i] != nil ==> sessOK(n.sess[i])) &&
-//@      (forall i int; j int :: 0 <= i && i < j && j < len(n.sess) && n.sess[i] != nil && n.sess[j] != nil ==> sep2(n.sess[i], n.sess[j]))
+//@      (forall i int :: 0 <= i && i < len(n.sess) && n.sess[i] != nil ==> sessOK(n.sess[i]) && allocated(n.sess[i])) &&
+//@      (forall i int; j int :: 0 <= i && i < len(n.sess) && 0 <= j && j < len(n.sess) && i != j && n.sess[i] != nil && n.sess[j] != nil ==> sep2(n.sess[i], n.sess[j]))
 
 //@ func (n *RemoteNode) Reset()
-//@   requires nodeWF(n) && lnodeWF(n.local) && allSessOK(n.local)
+//@   requires nodeWF(n) && lnodeWF(n.local) && allSessOK(n.local) && dpLive(n.local)
 //@   ensures [gone]   forall id uint64 :: id in old(n.sess) ==> !live(n.local, id)
-//@   ensures [clean]  forall k RuleKey :: k in DP ==> k in old(DP) && !(k.seid in old(n.sess) && old(live(n.local, k.seid)))
+//@   ensures [sub]    forall k RuleKey :: k in DP ==> k in old(DP)
 //@   ensures [others] forall id uint64 :: !(id in old(n.sess)) ==> (live(n.local, id) == old(live(n.local, id))) && (old(live(n.local, id)) ==> n.local.sess[id-1] == old(n.local.sess[id-1]))
 //@   ensures [isol]   forall k RuleKey :: !(k.seid in old(n.sess)) ==> ((k in DP) == (k in old(DP))) && ((k in CREATED) == (k in old(CREATED)))
 //@   ensures [empty]  fresh(n.sess) && len(n.sess) == 0
-//@   ensures [wf]     lnodeWF(n.local) && allSessOK(n.local)
+//@   ensures [wf]     lnodeWF(n.local) && allSessOK(n.local) && dpLive(n.local)
 //@   modifies *
 //@   serves C01 C04 C05
 //@   loop range(n.sess):
-//@     invariant [wf]     nodeWF(n) && lnodeWF(n.local) && allSessOK(n.local)
+//@     invariant [wf]     nodeWF(n) && lnodeWF(n.local) && allSessOK(n.local) && dpLive(n.local)
 //@     invariant [same]   n.sess == old(n.sess) && n.local == old(n.local)
-//@     invariant [sub]    forall id uint64 :: id in n.sess ==> id in old(n.sess)
+//@     invariant [subk]   forall id uint64 :: id in n.sess ==> id in old(n.sess)
 //@     invariant [gone]   forall id uint64 :: id in old(n.sess) && !(id in n.sess) ==> !live(n.local, id)
-//@     invariant [clean]  forall k RuleKey :: k in DP ==> k in old(DP) && !(k.seid in old(n.sess) && !(k.seid in n.sess) && old(live(n.local, k.seid)))
+//@     invariant [done]   forall id uint64 :: id in visited ==> !live(n.local, id)
+//@     invariant [sub]    forall k RuleKey :: k in DP ==> k in old(DP)
 //@     invariant [others] forall id uint64 :: !(id in old(n.sess)) ==> (live(n.local, id) == old(live(n.local, id))) && (old(live(n.local, id)) ==> n.local.sess[id-1] == old(n.local.sess[id-1]))
 //@     invariant [isol]   forall k RuleKey :: !(k.seid in old(n.sess)) ==> ((k in DP) == (k in old(DP))) && ((k in CREATED) == (k in old(CREATED)))
